@@ -19,6 +19,10 @@ GEN_DEPTH = {
 
 MODULE_OF = {"MC_auth": "MC_auth.tla", "MC_noauth": "MC_auth.tla", "GEN_auth": "MC_auth.tla", "GEN_noauth": "MC_auth.tla",
              "MC_nonce": "Nonce.tla", "GEN_nonce": "Nonce.tla"}
+for _n in ("framer", "bindreply"):
+    MODULE_OF["MC_" + _n] = MODULE_OF["GEN_" + _n] = "Framer.tla"
+    MC_DEPTH["MC_" + _n] = None
+    GEN_DEPTH["GEN_" + _n] = None
 for _n in ("ltcred", "relaygenA", "relaygenTop", "relaygenOne", "relaygenWide"):
     MODULE_OF["MC_" + _n] = MODULE_OF["GEN_" + _n] = "LtCred.tla" if _n == "ltcred" else "RelayGen.tla"
     MC_DEPTH["MC_" + _n] = None
@@ -27,7 +31,7 @@ MC_DEPTH.update({"MC_auth": (5, 7), "MC_noauth": (3, 4), "MC_nonce": None})
 GEN_DEPTH.update({"GEN_auth": (4, 5), "GEN_noauth": (2, 3), "GEN_nonce": None})
 
 
-NO_SIM = {"GEN_nonce", "GEN_noauth", "GEN_mtu", "GEN_mtu1200", "GEN_ltcred", "GEN_relaygenOne", "GEN_relaygenTop"}
+NO_SIM = {"GEN_bindreply", "GEN_nonce", "GEN_noauth", "GEN_mtu", "GEN_mtu1200", "GEN_ltcred", "GEN_relaygenOne", "GEN_relaygenTop"}
 
 
 def depth(table, name, t):
@@ -100,6 +104,12 @@ PROPS = {
     "C08": dict(title="channel bindings are a bijection inside 0x4000-0x7FFF", level="model_checking",
                 run=core_run(["MC_relay", "MC_relayB"], ["GEN_relayA", "GEN_relayB", "GEN_relayD"]),
                 assumptions=BASE_ASSUME),
+    "C10": dict(title="stream framing independent of segmentation, always progresses", level="model_checking",
+                run=core_run(["MC_framer", "MC_bindreply"], ["GEN_framer", "GEN_bindreply"]),
+                assumptions=["frame sizes use the intended arithmetic in unbounded integers (Framer.tla); the catalogue has 93 streams of 1-3 frames "
+                             "(ChannelData lengths 0,1,3,4,5,8,100,65531..65535 with numbers 0x4000/0x4001/0x5000/0x6000/0x7FFF, STUN lengths 0,4,8,100,65512,65516,65532, junk)",
+                             "segmentations: byte-sized cuts within 24 bytes after a frame start and 12 before its end, and cuts at end-1/end/end+1/+4/+9/+20 of the current frame and of the stream",
+                             "the reader uses one 70000-byte buffer for all calls, as Server.readLoop does; bytes of every returned frame are compared"]),
     "C17": dict(title="time-windowed credentials validate iff authentic and unexpired", level="model_checking",
                 run=core_run(["MC_ltcred"], ["GEN_ltcred"]),
                 assumptions=["HMAC-SHA1 / MD5 treated as uninterpreted injective functions (LtCred.tla)",
